@@ -78,6 +78,7 @@ CODES["C03"].update({
     "2:37": "Queued returned on an idle machine",
 })
 CODES["C05"].update({
+    "2:595": "a binding that was bound when an event was dispatched was skipped or called twice (bindings detached during the dispatch), or a veto of a still-bound binding was lost",
     "2:592": "a called Auto state vetoed by its own negotiation handler ended up active (brought back by the re-resolution)",
     "2:591": "an auto transition activated a state through the re-resolution after partial acceptance without consulting its negotiation handlers",
     "2:51": "handlers of one transition ran out of the documented phase order",
